@@ -38,7 +38,7 @@ Judge(e) ==
                       /\ (r.canonical => Chk(s.to_bytes = b, P, "Strict/bytes-roundtrip-changed", sc, [addr |-> b, got |-> s.to_bytes]))
                       /\ Chk(Has(s.bech, "ok") /\ s.bech.rt_bytes = s.to_bytes, P, "Strict/bech32-roundtrip-changed", sc, [addr |-> b])
             [] OTHER -> \* Byron structure: acceptance depends on CRC32(payload), evaluated by the digest oracle
-                 /\ Emit([t |-> "CRCCHK", p |-> P, sc |-> sc, pre |-> r.payload, crc |-> ToBE(r.crc, 4), accepted |-> Has(s, "ok"), addr |-> b])
+                 /\ Emit([t |-> "CRCCHK", p |-> P, sc |-> sc, pre |-> r.payload, crc |-> ToBE(r.crc, 4), accepted |-> Has(s, "ok"), known |-> r.known, addr |-> b])
                  /\ (Has(s, "ok") =>
                        /\ Chk(s.kind = "byron", P, "Strict/byron-misclassified", sc, [addr |-> b, got |-> s.kind])
                        /\ Chk(Has(s.bech, "ok") /\ s.bech.rt_bytes = s.to_bytes, P, "Strict/bech32-roundtrip-changed", sc, [addr |-> b])
